@@ -94,3 +94,20 @@ Example C01_lyb_hashseq_example :
   | None => (None, None)
   end = (Some [202], Some [71; 202]).
 Proof. exact hashseq_example. Qed.
+
+(* regression case for collisions deeper than the node-hash cache (LYS_NODE_HASH_COUNT = 4; corpus/lyb_collisions.txt):
+   the leaves n370 and n24119 of module hashcol collide on the collision ids 0, 1, 2 and 3, so the second one is printed
+   as FIVE hashes (collision id 4 first) and the reader, comparing every id, finds sibling 1 - an instance of
+   C01_lyb_hashseq_identifies, which holds for every collision depth. (A reader that compares the cached ids only would
+   take sibling 0: seeded change C01-5.) *)
+Example C01_lyb_hashseq_depth4_example :
+  let hc := [104; 97; 115; 104; 99; 111; 108] in
+  let l := [(hc, [110; 51; 55; 48]); (hc, [110; 50; 52; 49; 49; 57])] in
+  match hash_siblings l with
+  | Some ht => print_schema_hash ht 0 (hc, [110; 51; 55; 48]) = Some [157] /\
+               print_schema_hash ht 1 (hc, [110; 50; 52; 49; 49; 57]) = Some [8; 16; 58; 78; 157] /\
+               parse_schema_hash l ([8; 16; 58; 78; 157] ++ [7]) = Ok (Some 1%nat, [7]) /\
+               parse_schema_hash l ([157] ++ [7]) = Ok (Some 0%nat, [7])
+  | None => False
+  end.
+Proof. vm_compute. repeat split. Qed.
